@@ -57,6 +57,31 @@ static void *sorter_thread(void *arg)
 	mtbl_sorter_destroy(&s);
 	return NULL;
 }
+/* large chunks through the pool, then a small left-over batch flushed by mtbl_sorter_iter after the
+ * pooled chunk jobs had time to finish */
+static void *sorter_leftover_thread(void *arg)
+{
+	long id = (long) arg; char spill[512]; snprintf(spill, sizeof spill, "%s", dir);
+	struct mtbl_sorter_options *so = mtbl_sorter_options_init();
+	mtbl_sorter_options_set_max_memory(so, 6000 + 500 * id);
+	mtbl_sorter_options_set_temp_dir(so, spill);
+	mtbl_sorter_options_set_merge_func(so, merge_cat, NULL);
+	mtbl_sorter_options_set_threadpool(so, pool);
+	pthread_barrier_wait(&bar);
+	struct mtbl_sorter *s = mtbl_sorter_init(so);
+	mtbl_sorter_options_destroy(&so);
+	char k[32], v[32];
+	int n_big = 2 * (int)((6000 + 500 * id) / 24) + 7;      /* two chunks of well over 64 entries, plus a few entries */
+	for (int i = 0; i < n_big; i++) { snprintf(k, sizeof k, "k%05d", (int)((i * 37 + id * 11 + seed) % 4093)); snprintf(v, sizeof v, "v%d", i); mtbl_sorter_add(s, (uint8_t *) k, strlen(k), (uint8_t *) v, strlen(v)); }
+	usleep(40000);
+	mtbl_sorter_add(s, (uint8_t *) "dup", 3, (uint8_t *) "a", 1); mtbl_sorter_add(s, (uint8_t *) "dup", 3, (uint8_t *) "b", 1);
+	struct mtbl_iter *it = mtbl_sorter_iter(s);
+	const uint8_t *kk, *vv; size_t lk, lv; long n = 0;
+	while (mtbl_iter_next(it, &kk, &lk, &vv, &lv) == mtbl_res_success) n++;
+	mtbl_iter_destroy(&it);
+	mtbl_sorter_destroy(&s);
+	return NULL;
+}
 static struct mtbl_reader *shared_reader;
 static void *reader_thread(void *arg)
 {
@@ -98,6 +123,7 @@ int main(int argc, char **argv)
 	if (argc < 4) return 2;
 	const char *sc = argv[1]; seed = atoi(argv[2]); dir = argv[3];
 	if (!strcmp(sc, "writers")) { pool = mtbl_threadpool_init(2 + seed % 15); run_threads(writer_thread, 4); mtbl_threadpool_destroy(&pool); }
+	else if (!strcmp(sc, "sorters_leftover")) { pool = mtbl_threadpool_init(1 + seed % 4); run_threads(sorter_leftover_thread, 1 + seed % 3); mtbl_threadpool_destroy(&pool); }
 	else if (!strcmp(sc, "sorters")) { pool = mtbl_threadpool_init(1 + seed % 6); run_threads(sorter_thread, 4); mtbl_threadpool_destroy(&pool); }
 	else if (!strcmp(sc, "readers")) {
 		char path[512]; snprintf(path, sizeof path, "%s/tr.mtbl", dir); make_table(path, (seed % 2) ? MTBL_COMPRESSION_NONE : MTBL_COMPRESSION_LZ4);
